@@ -1,16 +1,17 @@
 #!/bin/bash
 # Generates the O-groupmutex overlay entry from the CURRENT /repo tree:
 #   /repo/pkg/binder/binding/resourcereservation/group_mutex/group_mutex.go
-# is copied with its single `"sync"` import redirected to the harness shim
-# `verif/mc/checks/binderrun/syncshim` (API-compatible Mutex that yields to the cooperative
-# scheduler of the C17 interleaving search; a plain sync.Mutex when no scheduler is installed).
-# Nothing else in the file is touched; /repo itself is never modified.
+# is copied with its `"sync"` import redirected to the harness shim
+# `verif/mc/checks/binderrun/syncshim` (offers the whole API of package sync; its Mutex / RWMutex
+# yield to the cooperative scheduler of the C17 interleaving search and are plain sync locks when no
+# scheduler is installed). Nothing else in the file is touched; /repo itself is never modified.
 #
 # usage: gen_groupmutex.sh [base-overlay.json [out-overlay.json [out-dir]]]
 #   base  default /verif/.build/overlay/overlay.json (must exist: run gen_maporder.sh first)
 #   out   default = base (merged in place, atomically)
 #   dir   default = dirname(out)/groupmutex  (where the patched copy is written)
-# Fails loudly (exit 2) if group_mutex.go no longer has the expected shape.
+# A file that does not import "sync" is used unchanged (entry removed). Exit 2 only if the import
+# cannot be located unambiguously; build.sh then builds without the entry.
 set -euo pipefail
 BASE=${1:-/verif/.build/overlay/overlay.json}
 OUT=${2:-$BASE}
@@ -18,32 +19,38 @@ DIR=${3:-$(dirname "$OUT")/groupmutex}
 SRC=/repo/pkg/binder/binding/resourcereservation/group_mutex/group_mutex.go
 SHIM=verif/mc/checks/binderrun/syncshim
 [ -f "$BASE" ] || { echo "overlay groupmutex: base overlay $BASE missing (run gen_maporder.sh)" >&2; exit 2; }
-[ -f "$SRC" ] || { echo "overlay groupmutex: $SRC missing" >&2; exit 2; }
-# expected shape: exactly one import line `"sync"`, every other use is sync.Mutex, and the two
-# entry points the interleaving search relies on still exist.
-n_imp=$(grep -c '^[[:space:]]*"sync"[[:space:]]*$' "$SRC" || true)
-n_all=$(grep -o 'sync\.[A-Za-z]*' "$SRC" | sort -u | tr '\n' ' ')
-if [ "$n_imp" != "1" ] || [ "$n_all" != "sync.Mutex " ] \
-   || ! grep -q 'func (gm \*GroupMutex) LockMutexForGroup(' "$SRC" \
-   || ! grep -q 'func (gm \*GroupMutex) ReleaseMutex(' "$SRC"; then
-  echo "overlay groupmutex: $SRC no longer matches (sync imports=$n_imp, sync uses='$n_all'); update /verif/overlays/gen_groupmutex.sh and the shim" >&2
-  exit 2
-fi
-mkdir -p "$DIR"
-sed 's#^\([[:space:]]*\)"sync"[[:space:]]*$#\1sync "'"$SHIM"'"#' "$SRC" > "$DIR/group_mutex.go.tmp"
-grep -q "sync \"$SHIM\"" "$DIR/group_mutex.go.tmp" || { echo "overlay groupmutex: rewrite failed" >&2; exit 2; }
-# the rewrite must be exactly one changed line
-if [ "$(diff "$SRC" "$DIR/group_mutex.go.tmp" | grep -c '^[<>]')" != "2" ]; then
-  echo "overlay groupmutex: rewrite changed more than the import line" >&2; exit 2
-fi
-mv "$DIR/group_mutex.go.tmp" "$DIR/group_mutex.go"
-python3 - "$BASE" "$OUT" "$SRC" "$DIR/group_mutex.go" <<'P'
+
+merge() { # merge <replacement-or-empty>
+python3 - "$BASE" "$OUT" "$SRC" "${1:-}" <<'P'
 import json,os,sys
 base,out,src,repl=sys.argv[1:5]
 o=json.load(open(base))
-o.setdefault("Replace",{})[src]=repl
+if repl: o.setdefault("Replace",{})[src]=repl
+else: o.setdefault("Replace",{}).pop(src,None)
 tmp=out+".tmp.%d"%os.getpid()
 json.dump(o,open(tmp,"w"),indent=1)
 os.replace(tmp,out)
 P
+}
+
+if [ ! -f "$SRC" ]; then echo "overlay groupmutex: $SRC missing; no entry" >&2; merge ""; echo "$OUT"; exit 0; fi
+IMP='^\([[:space:]]*\)\(sync[[:space:]]\+\)\?"sync"[[:space:]]*$'
+n_imp=$(grep -c "$IMP" "$SRC" || true)
+if [ "$n_imp" = "0" ]; then
+  echo "overlay groupmutex: $SRC does not import \"sync\"; used unchanged" >&2
+  merge ""; echo "$OUT"; exit 0
+fi
+if [ "$n_imp" != "1" ]; then
+  echo "overlay groupmutex: $SRC has $n_imp \"sync\" import lines; update /verif/overlays/gen_groupmutex.sh" >&2
+  merge ""; exit 2
+fi
+mkdir -p "$DIR"
+sed "s#$IMP#\\1sync \"$SHIM\"#" "$SRC" > "$DIR/group_mutex.go.tmp"
+grep -q "sync \"$SHIM\"" "$DIR/group_mutex.go.tmp" || { echo "overlay groupmutex: rewrite failed" >&2; merge ""; exit 2; }
+# the rewrite must be exactly one changed line
+if [ "$(diff "$SRC" "$DIR/group_mutex.go.tmp" | grep -c '^[<>]')" != "2" ]; then
+  echo "overlay groupmutex: rewrite changed more than the import line" >&2; merge ""; exit 2
+fi
+mv "$DIR/group_mutex.go.tmp" "$DIR/group_mutex.go"
+merge "$DIR/group_mutex.go"
 echo "$OUT"
